@@ -180,6 +180,10 @@ def build_script(role, steps, cuts=None, mode='pdu', eof_merge=False):
         elif step[0] == 'user':
             obj, raws = F.user_primitive(step[1])
             script.append(('user', obj))
+        elif step[0] == 'both':
+            # ('both', [pdus], symbol): the burst arrives and the user issues the primitive at once
+            obj, raws = F.user_primitive(step[2])
+            script.append(('both', ('bytes', b''.join(step[1])), obj))
         elif step[0] == 'close':
             script.append(('close',))
         elif step[0] == 'reset':
